@@ -190,12 +190,18 @@ def hreqOp (args : List String) : String :=
       let src : Src := { flat := flat, tail := tail }
       if kind == "unary" && proto == "connect" then
         match handlerRecvUnaryConnect cfg src with
-        | (some v, _) => s!"pre=run recv={hexOut' v} end=eof"
+        | (some v, _) =>
+          match unaryGate p tmo with
+          | some code => s!"norun:{code}"
+          | none => s!"pre=run recv={hexOut' v} end=eof"
         | (none, e) => s!"norun:{showEnd e}"
       else if kind == "unary" then
         -- one Receive: the first message only
         match handlerRecvStream p tableParsers cfg src with
-        | (v :: _, _) => s!"pre=run recv={hexOut' v} end=eof"
+        | (v :: _, _) =>
+          match unaryGate p tmo with
+          | some code => s!"norun:{code}"
+          | none => s!"pre=run recv={hexOut' v} end=eof"
         | ([], .eof) => s!"norun:{codeUnknown}"   -- NewError(CodeUnknown, io.EOF) goes on the wire
         | ([], e) => s!"norun:{showEnd e}"
       else
